@@ -32,6 +32,18 @@ type mon struct {
 	errAt    error
 	log      []string
 	viol     map[string]string
+	store    *transactions.TransactionStore
+}
+
+// finallyFn is a completion callback like the ones bisquitt uses: it removes
+// the transaction from a store (taking the store's lock) and is then complete.
+func (m *mon) finallyFn() func() {
+	m.store = transactions.NewTransactionStore()
+	return func() {
+		m.store.Delete(1)
+		m.finally++
+		m.log = append(m.log, "finally")
+	}
 }
 
 func (m *mon) v(sig, detail string) {
@@ -68,6 +80,9 @@ func (m *mon) step() {
 		m.v("finally-ran-more-than-once", fmt.Sprintf("completion callback ran %d times", m.finally))
 	}
 	if isDone(m.tx) {
+		if m.finally == 0 {
+			m.v("done-closed-before-completion-callback-ran", "Done is closed but the completion callback has not run (to completion) yet")
+		}
 		e := m.tx.Err()
 		if !m.doneSeen {
 			m.doneSeen = true
@@ -104,7 +119,7 @@ func retryScenario(name string, count uint, cbErr bool, mk func(tx *transactions
 				return errCb
 			}
 			return nil
-		}, func() { m.finally++; m.log = append(m.log, "finally") })
+		}, m.finallyFn())
 		m.tx = tx
 		return nil, mk(tx, cancel)
 	}}
@@ -114,7 +129,7 @@ func timedScenario(name string, timeout time.Duration, mk func(get func() *trans
 	return scenario{name: name, horizon: 3 * time.Second, build: func(m *mon, ctx context.Context, cancel func()) (func(), []func()) {
 		var tx *transactions.TimedTransaction
 		ctor := func() {
-			tx = transactions.NewTimedTransaction(ctx, timeout, func() { m.finally++; m.log = append(m.log, "finally") })
+			tx = transactions.NewTimedTransaction(ctx, timeout, m.finallyFn())
 			m.tx = tx
 		}
 		return ctor, mk(func() *transactions.TimedTransaction { return tx }, cancel)
